@@ -257,6 +257,8 @@ def stepLine (s : S) (req resp : List String) : S × List String :=
         [s!"MON C20 after the faults stopped {stranded.map (·.id)} remain dispatched although their work function never ran"]
       (s, d ++ c05 ++ c06 ++ c20)
     | _, _ => (s, ["DIFF parse bad final line"])
+  -- an invariant of the harness's simulated dispatcher violated by the implementation (relayed, like the other drivers)
+  | "mismatch" :: prop :: rest => (s, [s!"MON {prop} " ++ " ".intercalate (rest.take 40)])
   | _ => (s, ["DIFF parse bad request " ++ " ".intercalate req])
 
 end Gk.DrvSched
